@@ -949,6 +949,22 @@ func genHotKeyCrashCase(r *rand.Rand, async bool) *c02Case {
 	return c
 }
 
+// several records per memstore, distinct keys, no forced rotation: while one memstore is being flushed the writer fills
+// and rotates the next one, so kill images hold two or more log files of complete, acknowledged records - more than a
+// memstore is allowed to hold. Every one of them has to come back (a hole shows as a missing key among present ones)
+func genMidMemstoreCrashCase(r *rand.Rand, async bool) *c02Case {
+	var keys [][]byte
+	for k := 0; k < 32; k++ {
+		keys = append(keys, []byte(fmt.Sprintf("key%02d", k)))
+	}
+	c := &c02Case{Keys: keys}
+	c.Opts = dbOpts{MemstoreBytes: uint64(40 + r.Intn(40)), Threshold: 10, MaxSize: 5 << 30, RatioPct: 100, WBuf: 4096, RBuf: 4096, AsyncWAL: async}
+	for j := 0; j < 24+r.Intn(8); j++ {
+		c.Steps = append(c.Steps, dbStep{Op: "put", K: keys[j], V: []byte(fmt.Sprintf("val%02d", j))})
+	}
+	return c
+}
+
 func genTinyCrashCase(r *rand.Rand, async bool, nest int) *c02Case {
 	keys := [][]byte{[]byte("key0"), []byte("key1")}
 	if r.Intn(2) == 0 {
@@ -1008,6 +1024,14 @@ func init() {
 			}
 			for _, c := range genC13Buf(r, tier) {
 				out = append(out, &c13Any{Buf: c.(*c13Buf)})
+			}
+			// (generated last, so that the cases above stay what they were)
+			nm := 2
+			if tier == "thorough" {
+				nm = 16
+			}
+			for i := 0; i < nm; i++ {
+				out = append(out, &c13Any{Crash: genMidMemstoreCrashCase(r, true)})
 			}
 			return out
 		},
